@@ -111,6 +111,10 @@ class Filter(object):
 
         f.response = np.zeros(nu_new.shape)
 
+        # The filter may be tabulated in increasing or decreasing frequency
+        nu_lo = min(self_nu_hz[0], self_nu_hz[-1])
+        nu_hi = max(self_nu_hz[0], self_nu_hz[-1])
+
         for i in range(len(f.response)):
 
             if i == 0:
@@ -123,8 +127,8 @@ class Filter(object):
             else:
                 nu2 = 0.5 * (nu_new_hz[i] + nu_new_hz[i + 1])
 
-            nu1 = min(max(nu1, self_nu_hz[0]), self_nu_hz[-1])
-            nu2 = min(max(nu2, self_nu_hz[0]), self_nu_hz[-1])
+            nu1 = min(max(nu1, nu_lo), nu_hi)
+            nu2 = min(max(nu2, nu_lo), nu_hi)
 
             if nu2 != nu1:
                 f.response[i] = integrate_subset(self_nu_hz, self.response, nu1, nu2)
